@@ -626,3 +626,21 @@ def reduce_post(c):
 REDUCE = REG.add(Contract(
     "las_items.HeaderItem.__reduce__", params={"self": HI}, ensures=reduce_post,
     properties=("C17", "C13", "C03"), noraise=True))
+
+
+# get() with an ITEM as default (C15: "get() without add=True never changes the section" - nor the default it was given)
+def get_item_default_post(c):
+    v, v0 = View(c), View(c, old=True)
+    k = c.a["mnemonic"].t
+    return get_post(c) + [
+        ("without-add-the-section-never-changes", z3.And(v.n == v0.n, v.A == v0.A)),
+        ("absent:the-result-is-a-new-item-not-the-default-itself", z3.Implies(nomatch(v0, k), c.res.t != c.a["default"].t)),
+    ] + nothing_updated_in_place(c)
+
+
+GET_ITEMDEF = REG.add(Contract(
+    "las_items.SectionItems.get", case="item-default,add=False",
+    params={"self": SI, "mnemonic": STR, "default": HI, "add": CONST(False)},
+    requires=lambda c: shape(c) + [("default-is-an-existing-item", z3.And(z3.Select(c.h("$alloc"), c.a["default"].t), c.a["default"].t != c.a["self"].t))],
+    ensures=get_item_default_post, ghost_init=get_ghost, returns=HI, properties=("C15",), may_raise=["Any"]))
+GET_ITEMDEF.note = "np.array(default.data) for a CurveItem default is an opaque numpy call that may raise"
